@@ -271,3 +271,25 @@ Ltac run :=
                   | |- context [if ?c then _ else _] => let E := fresh "E" in destruct c eqn:E
                   end ]);
   cbn [rbind]; widths.
+
+(* a conversion to a type that contains the value does not change it *)
+Lemma cast_id t x : WT t -> in_ty t x = true -> cast t x = x.
+Proof.
+  intros HT Hx. types t HT; range Hx; unfold cast; cbn [sgn bits];
+    first [apply ws_small | apply wu_small]; consts; lia.
+Qed.
+
+(* an arithmetic result that is a value of the operand type is computed exactly *)
+Lemma arith_ok t x : WT t -> in_ty t x = true -> arith t x = Ok x.
+Proof.
+  intros HT Hx. types t HT; range Hx; unfold arith; widths;
+    first [ apply arith_in_signed; [reflexivity | consts; lia]
+          | rewrite arith_in_unsigned by reflexivity; cbn [bits]; f_equal; apply wu_small; consts; lia ].
+Qed.
+
+Lemma in_ty_0 t : WT t -> in_ty t 0 = true.
+Proof. intros HT. types t HT; reflexivity. Qed.
+Lemma in_ty_1 t : WT t -> in_ty t 1 = true.
+Proof. intros HT. types t HT; reflexivity. Qed.
+
+Ltac wcases H := unfold WT, W in H; destruct H as [ H | [ H | [ H | H ] ] ]; try rewrite H in *.
